@@ -285,6 +285,7 @@ struct World<E> {
     s: [Side<E>; 2],
     bag: [Vec<Dg>; 2], // bag[0]: A->B, bag[1]: B->A
     arch: [Vec<Dg>; 2], // handshake datagrams ever emitted per direction: the network may deliver a late duplicate
+    old: [Vec<Dg>; 2],  // a sample of the other datagrams emitted so far, for the same purpose
     steps: usize,
     forged: bool,      // a datagram the network invented was fed: the C01 oracles no longer apply
 }
@@ -372,7 +373,7 @@ impl<E: Endpoint> World<E> {
         let t = |v: &Vec<[u8; 4]>| v.iter().map(|x| hex(x)).collect::<Vec<_>>().join(",");
         o.lock().unwrap().case(&format!("{}\t{}\tnew\t{}\t{}", proto, trace, t(&ra), t(&rb)), "ok", "");
         let mk = |rand| Side { ep: Some(E::new(rand)), sub: vec![], del: vec![], nv_sent: vec![], ready: 0, got_answer: false, dead: false };
-        World { proto: proto.into(), v7, trace, now: 0, s: [mk(ra), mk(rb)], bag: [vec![], vec![]], arch: [vec![], vec![]], steps: 0, forged: false }
+        World { proto: proto.into(), v7, trace, now: 0, s: [mk(ra), mk(rb)], bag: [vec![], vec![]], arch: [vec![], vec![]], old: [vec![], vec![]], steps: 0, forged: false }
     }
     fn fp(&self, i: usize) -> String { match &self.s[i].ep { Some(e) => e.fp(), None => "Dead".into() } }
     fn online(&self, i: usize) -> bool { state_of(&self.fp(i)) == "Online" }
@@ -563,6 +564,8 @@ impl<E: Endpoint> World<E> {
             let dg = Dg { bytes: d, n_emit: self.s[side].sub.len(), d_emit: self.s[side].del.len() };
             let hs = t.starts_with("C|") && ["|co:", "|ca", "|ac", "|tk:"].iter().any(|k| t.contains(k));
             if hs && self.arch[side].len() < 8 { self.arch[side].push(dg.clone()); }
+            // and a thin sample of everything else (late duplicates of old data / ack datagrams)
+            if !hs && self.steps % 7 == 3 { if self.old[side].len() < 8 { self.old[side].push(dg.clone()); } else { let k = self.steps % 8; self.old[side][k] = dg.clone(); } }
             self.bag[side].push(dg);
         }
         // C02: while anything is unsent, unacknowledged or mid-handshake the deadline is finite
@@ -661,8 +664,9 @@ impl<E: Endpoint> World<E> {
                 if r.chance(1, 2) {
                     // a handshake datagram duplicated by the network long ago shows up now
                     let dir = r.below(2) as usize;
-                    if !self.arch[dir].is_empty() && self.bag[dir].len() < 40 {
-                        let dg = r.pick(&self.arch[dir]).clone();
+                    let pool: &Vec<Dg> = if r.chance(1, 2) || self.old[dir].is_empty() { &self.arch[dir] } else { &self.old[dir] };
+                    if !pool.is_empty() && self.bag[dir].len() < 40 {
+                        let dg = r.pick(pool).clone();
                         let at = r.below(self.bag[dir].len() as u64 + 1) as usize;
                         self.bag[dir].insert(at, dg);
                         o.lock().unwrap().count("late-handshake-duplicate");
@@ -808,9 +812,13 @@ fn run_proto<E: Endpoint>(a: &Args, o: &Shared, proto: &str, modes: &[&str]) {
                 "wrap" => {
                     // > 1024 vital chunks with acks: the sequence space wraps
                     w.handshake(o, &mut r, false);
+                    // in half of the traces the connecting side stops at exactly 1024 vital chunks: its last chunk
+                    // carries sequence number 0 and the acknowledgement it waits for is 0
+                    let stop_a = if r.chance(1, 2) { Some(1024usize) } else { None };
                     for i in 0..(1400 + r.below(200)) {
                         let side = if i % 5 == 4 { 1 } else { 0 };
-                        if w.online(side) { w.apply(o, &Label::Send(side, vec![(i % 251) as u8, (i / 251) as u8], true)); }
+                        let stopped = side == 0 && stop_a.map(|n| w.s[0].sub.len() >= n).unwrap_or(false);
+                        if w.online(side) && !stopped { w.apply(o, &Label::Send(side, vec![(i % 251) as u8, (i / 251) as u8], true)); }
                         if i % 3 == 2 { w.apply(o, &Label::Flush(0)); if w.online(1) { w.apply(o, &Label::Flush(1)); } }
                         for dir in 0..2 { while !w.bag[dir].is_empty() { if r.chance(1, 15) { w.apply(o, &Label::Drop(dir, 0)); } else { w.apply(o, &Label::Deliver(dir, 0, false)); } } }
                         if i % 50 == 49 { w.apply(o, &Label::Clock(1_000_001)); w.apply(o, &Label::Tick(0)); w.apply(o, &Label::Tick(1)); }
@@ -871,6 +879,21 @@ fn run_proto<E: Endpoint>(a: &Args, o: &Shared, proto: &str, modes: &[&str]) {
                             w.apply(o, &Label::FeedRaw(0, e));
                         }
                     }
+                    if state_of(&w.fp(0)) == "Unconnected" && r.chance(1, 2) {
+                        // the acceptor is half-connected (it has answered the connect request, nothing else has
+                        // arrived yet): datagrams without the token it handed out must not move it
+                        w.apply(o, &Label::Connect(0));
+                        for _ in 0..3 { if !w.bag[0].is_empty() { w.apply(o, &Label::Deliver(0, 0, false)); } if !w.bag[1].is_empty() && v7 && state_of(&w.fp(0)) != "Connecting" { w.apply(o, &Label::Deliver(1, 0, false)); } }
+                        let forged: Vec<Vec<u8>> = if v7 {
+                            let t = [r.byte(), r.byte(), r.byte(), r.byte()];
+                            vec![vec![0x04, 0, 0, t[0], t[1], t[2], t[3], 4], vec![0x04, 0, 0, 0xff, 0xff, 0xff, 0xff, 4], vec![0x00, 0, 1, t[0], t[1], t[2], t[3], 0x00, 0x01, 0x41], vec![0x04, 0, 0, t[0], t[1], t[2], t[3], 0]]
+                        } else {
+                            let t = [r.byte(), r.byte(), r.byte(), r.byte()];
+                            vec![vec![0x10, 0, 0, 4], vec![0x10, 0, 0, 4, t[0], t[1], t[2], t[3]], vec![0x00, 0, 1, 0x00, 0x01, 0x41], vec![0x00, 0, 1, 0x00, 0x01, 0x41, t[0], t[1], t[2], t[3]],
+                                 vec![0x00, 0, 1, 0x40, 0x01, 0x01, 0x41], vec![0x10, 0, 0, 0], vec![0x10, 0, 0, 3], vec![0x10, 0, 0, 4, 0xff, 0xff, 0xff, 0xff]]
+                        };
+                        for d in forged { if w.s[1].dead { break; } w.apply(o, &Label::FeedRaw(1, d)); }
+                    }
                     w.handshake(o, &mut r, lossy);
                     // the handshake datagrams of both directions are known to the attacker as well
                     let mut captured: Vec<Vec<u8>> = w.arch.iter().flat_map(|a| a.iter().map(|d| d.bytes.clone())).collect();
@@ -915,6 +938,85 @@ fn run_proto<E: Endpoint>(a: &Args, o: &Shared, proto: &str, modes: &[&str]) {
     }
 }
 
+// ---------------- a send callback that fails now and then (oracle only; the model assumes Infallible) ----------------
+// C04: "no sequence of valid API calls panics" and a refused / failed call "leaves the connection usable" are
+// checked on the real code with a callback whose `send` returns an error at chosen points.
+macro_rules! failing_send {
+    ($name:ident, $conn:ident, $tag:expr, $max:expr) => {
+        fn $name(o: &Shared, seed: u64, n: usize) {
+            use libtw2_net::$conn::{Callback, Connection};
+            struct Cb { now: u64, k: u8, fail_in: Option<u32>, sent: Vec<Vec<u8>> }
+            impl Callback for Cb {
+                type Error = &'static str;
+                fn secure_random(&mut self, b: &mut [u8]) { self.k = self.k.wrapping_add(29); for x in b { *x = self.k | 1; } }
+                fn send(&mut self, d: &[u8]) -> Result<(), &'static str> {
+                    if let Some(n) = self.fail_in.as_mut() { if *n == 0 { self.fail_in = None; return Err("network unreachable"); } *n -= 1; }
+                    self.sent.push(d.to_vec());
+                    Ok(())
+                }
+                fn time(&mut self) -> libtw2_net::Timestamp { libtw2_net::Timestamp::from_usecs_since_epoch(self.now) }
+            }
+            let mut r = Rng::new(seed ^ 0xfa11);
+            for t in 0..n {
+                let trace = format!("failsend{}-{}", $tag, t);
+                let mut log: Vec<String> = vec![];
+                let res = {
+                    let log = &mut log;
+                    let r = &mut r;
+                    guard(move || -> Result<(), String> {
+                        let (mut a, mut b) = (Connection::new(), Connection::new());
+                        let mut ca = Cb { now: 0, k: 1, fail_in: None, sent: vec![] };
+                        let mut cb = Cb { now: 0, k: 100, fail_in: None, sent: vec![] };
+                        a.connect(&mut ca).map_err(|e| e.to_string())?;
+                        let mut buf = [0u8; 2048];
+                        for _ in 0..12 {
+                            for d in std::mem::take(&mut ca.sent) { let (ev, res) = b.feed(&mut cb, &mut libtw2_warn::Ignore, &d, &mut buf[..]); for _ in ev {} res.map_err(|e| e.to_string())?; }
+                            for d in std::mem::take(&mut cb.sent) { let (ev, res) = a.feed(&mut ca, &mut libtw2_warn::Ignore, &d, &mut buf[..]); for _ in ev {} res.map_err(|e| e.to_string())?; }
+                        }
+                        // the connecting side is online now; stress it with a callback that fails at chosen sends
+                        for step in 0..(60 + r.below(140)) {
+                            // send / flush / send_connless are valid calls only while online (a timeout or a close ends that)
+                            if !a.verif_fingerprint().starts_with("Online") { break; }
+                            if r.chance(1, 5) { ca.fail_in = Some(r.below(3) as u32); }
+                            let op = r.below(10);
+                            let what;
+                            let res: Result<(), String> = match op {
+                                0..=5 => {
+                                    let n = match r.below(4) { 0 => r.below(40) as usize, 1 => *r.pick(&[$max - 3usize, $max - 2, $max - 1, $max, 300, 700, 1000, 1020]), _ => r.below($max as u64 + 1) as usize };
+                                    let v = r.chance(1, 2);
+                                    what = format!("send {} {}", n, v);
+                                    a.send(&mut ca, &vec![(step % 251) as u8; n], v).map_err(|e| format!("{:?}", e))
+                                }
+                                6 => { what = "flush".into(); a.flush(&mut ca).map_err(|e| e.to_string()) }
+                                7 | 8 => { ca.now += *r.pick(&[400_000u64, 600_000, 1_000_001]); what = "tick".into(); a.tick(&mut ca).map_err(|e| e.to_string()) }
+                                _ => { let n = *r.pick(&[0usize, 10, 1389, 1390]); what = format!("connless {}", n); a.send_connless(&mut ca, &vec![7u8; n]).map_err(|e| format!("{:?}", e)) }
+                            };
+                            log.push(format!("{}{}", what, if res.is_err() { "!" } else { "" }));
+                            if log.len() > 40 { log.remove(0); }
+                            // now and then the peer hears from us (acks come back, the queue shrinks)
+                            if r.chance(1, 3) {
+                                for d in std::mem::take(&mut ca.sent) { let (ev, res) = b.feed(&mut cb, &mut libtw2_warn::Ignore, &d, &mut buf[..]); for _ in ev {} let _ = res; }
+                                if b.verif_fingerprint().starts_with("Online") { let _ = b.flush(&mut cb); }
+                                for d in std::mem::take(&mut cb.sent) { let (ev, res) = a.feed(&mut ca, &mut libtw2_warn::Ignore, &d, &mut buf[..]); for _ in ev {} let _ = res; }
+                            } else { ca.sent.clear(); }
+                        }
+                        Ok(())
+                    })
+                };
+                let mut g = o.lock().unwrap();
+                g.tick("failsend", "failsend");
+                match res {
+                    Ok(Ok(())) => g.check(true, "-", &trace, String::new),
+                    Ok(Err(e)) => g.check(true || e.is_empty(), "-", &trace, String::new), // the handshake itself failed: nothing to judge
+                    Err(p) => g.check(false, "-", &trace, || format!("C04: valid API calls with a send callback that fails now and then panicked: {} (last calls, ! = returned an error: {})", p, log.join(", "))),
+                }
+            }
+        }
+    };
+}
+failing_send!(failing_send6, connection, "6", 1023);
+failing_send!(failing_send7, connection7, "7", 1390);
+
 fn main() {
     let a = Args::parse();
     let o: Shared = Arc::new(Mutex::new(Out::new(&a, "labelled traces over two real Connection endpoints and a scripted lossy/duplicating/reordering network; modes: link (random structured traces), fair (lossy prefix + fair suffix), wrap (>1024 vital chunks), sender (valid-API stress of the sending side), hostile (foreign tokens, mutations, truncations, garbage). distinct = distinct (operation, state before > state after, result, #datagrams, #events) signatures")));
@@ -944,6 +1046,11 @@ fn main() {
             "7" => run_proto::<v7::Ep>(&a, &o, "7", &m),
             p => run_proto::<v6::Ep>(&a, &o, p, &m),
         }
+    }
+    if m.contains(&"sender") {
+        let n = if a.thorough() { 2000 } else { 150 };
+        if protos.iter().any(|p| p == "6") { failing_send6(&o, a.seed, n); }
+        if protos.iter().any(|p| p == "7") { failing_send7(&o, a.seed, n); }
     }
     o.lock().unwrap().finish_ref();
 }
